@@ -11,7 +11,7 @@ func init() {
 	Register(&Profile{Name: "cli-exit", Prop: "C20", Weight: 10, Quick: 480, Thorough: 12000, Fn: cliExit})
 	SetMeta("C20", &Meta{
 		Level: "exploration",
-		Rule: "the par binary built from the current tree is run as a subprocess on a tmpfs scratch set: create (checked: status 0, set exists, verify says clean), then a state from {intact, repairable, unrepairable, no parity left, damaged index, missing index} is produced by whole-file deletion/garbage (so needed/possible is decided by the reference model without ambiguity), then verify and repair with command abbreviations, -g/-s/-c/-a/-doublecheck flags, invoked from the set's directory, its parent or an unrelated directory with relative or absolute spellings; plus usage errors. Oracle: the expected-status table of DESIGN.md section 14; status 0 implies the operation's postcondition on disk; a Go panic trace on stderr is a violation whatever the status. Non-trivial: verify and repair were both run in a non-intact state or a usage error was exercised; distinct by (format, state, invocation class, flags, statuses).",
+		Rule:  "the par binary built from the current tree is run as a subprocess on a tmpfs scratch set: create (checked: status 0, set exists, verify says clean), then a state from {intact, repairable, unrepairable, no parity left, damaged index, missing index} is produced by whole-file deletion/garbage (so needed/possible is decided by the reference model without ambiguity), then verify and repair with command abbreviations, -g/-s/-c/-a/-doublecheck flags, invoked from the set's directory, its parent or an unrelated directory with relative or absolute spellings; plus usage errors. Oracle: the expected-status table of DESIGN.md section 14; status 0 implies the operation's postcondition on disk; a Go panic trace on stderr is a violation whatever the status. Non-trivial: verify and repair were both run in a non-intact state or a usage error was exercised; distinct by (format, state, invocation class, flags, statuses).",
 		Assumptions: []string{
 			"states are built from unambiguous damage (whole files deleted or replaced by garbage, recovery files intact or deleted); PAR1 singular combinations are excluded from the repair-status oracle",
 			"real file system (tmpfs), real binary; no in-operation I/O faults here",
